@@ -327,15 +327,15 @@ class Monitor(Job):
 
 def jobs(tier):
     thorough = tier == "thorough"
-    n = 10 if thorough else 7
-    return [Monitor("responsive", n), Monitor("silent", n), Monitor("free", n - 1), Monitor("loss", n - 2), Monitor("follower", 4), Monitor("backpressure", n - 1)]
+    n = 16 if thorough else 10
+    return [Monitor("responsive", n), Monitor("silent", n), Monitor("free", n - 1), Monitor("loss", n - 2), Monitor("follower", 4), Monitor("backpressure", 12 if thorough else 8)]
 
 
 ASSUMPTIONS = [
     "the reactor is replaced by a symbolic clock: callLater deadlines are now+delay as z3 Reals, the next event is the earliest one (ties forked), time never goes backwards",
     "the link delivers pongs in the order the pings were sent; a pong for ping k arrives latency_k >= 0 after the ping (or never)",
     "Connector replaced by an inert stub; the selected connection by a recorder (send_record/disconnect with timestamps)",
-    "bounded: the first 7 (quick) / 10 (thorough) timer/pong events after the connection is made; one loss+reconnect in the loss mode",
+    "bounded: the first 10 (quick) / 16 (thorough) timer/pong events after the connection is made; one loss+reconnect in the loss mode",
     "the ping sent at connection time is issued before the connection is installed and is therefore not transmitted (observed behaviour, harmless): the first transmitted ping is one interval later",
 ]
 
